@@ -53,10 +53,11 @@ Theorem C15_raw_sorted_stream_sorted :
 Proof. exact raw_sorted_stream_sorted. Qed.
 Print Assumptions C15_raw_sorted_stream_sorted.
 
-(* (5) pairing: over the grammar  X slice | adjacent B/E pair (same name) | metadata with args | counter,
+(* (5) pairing: over the grammar  X slice | adjacent B/E pair (same name) | metadata M (also instant i /
+   async b, e without dur), WITH OR WITHOUT an args dict | counter,
    the per-file stream is exactly the kept tokens in order, a pair becoming one X slice with
-   dur = E.ts - B.ts at B's ts; tokens with dur < 0 resp. 0 <= dur <= double(1e-9) are skipped and
-   counted in the negative_duration resp. zero_duration warning; no exception. *)
+   dur = E.ts - B.ts at B's ts, metadata passed on; tokens with dur < 0 resp. 0 <= dur <= double(1e-9)
+   are skipped and counted in the negative_duration resp. zero_duration warning; no exception. *)
 Theorem C15_pairing :
   forall (f : file) (toks : list token),
     fl_processed f = false -> fl_evs f = flatten toks -> forallb wf_tok toks = true ->
@@ -68,8 +69,8 @@ Proof. exact pairing. Qed.
 Print Assumptions C15_pairing.
 
 (* (6) rank attribution (FLEX): with R = the preset rank, or, if that is -1, the pid of the first
-   annotated event (X, B, M), and R <> -1: every annotated event of the file's stream carries rank R
-   in the dict the code annotates, and pid R when R >= 0. *)
+   annotated event (X, B, M, i, b, e), and R <> -1: every annotated event of the file's stream carries
+   rank R in the dict the code annotates (a fresh one if the event had none), and pid R when R >= 0. *)
 Theorem C15_rank_attr :
   forall (f : file) (toks : list token),
     fl_processed f = false -> fl_evs f = flatten toks -> forallb wf_tok toks = true ->
@@ -101,7 +102,8 @@ Definition ex_toks0 : list token :=
   [TBE (xev 0 "B" 1 None 2) (xev 1 "E" 3 None 7);           (* pair, dur 2 *)
    TX (xev 2 "X" 3 (Some 0%Q) 2);                           (* zero duration: skipped *)
    TBE (xev 4 "B" 3 None 2) (xev 5 "E" (5 # 2) None 2);     (* negative duration: skipped *)
-   TM (mkEv 6 (Some "M"%string) (Some "process_name"%string) (Some 4%Q) None (Some 9) (Some (None, None)) None);
+   TM (mkEv 6 (Some "M"%string) (Some "process_name"%string) (Some 4%Q) None (Some 9) None None);  (* no args *)
+   TM (mkEv 7 (Some "i"%string) (Some "inst"%string) (Some 4%Q) None (Some 9) None None);          (* no args *)
    TX (xev 8 "X" 4 (Some 1%Q) 3)].
 Definition ex_toks1 : list token := [TX (xev 1000 "X" 1 (Some 2%Q) 5); TX (xev 1002 "X" 4 (Some 1%Q) 5)].
 Definition ex_files : list file :=
@@ -114,7 +116,7 @@ Example C15_nonvacuous :
   all_ok (map init_file ex_files) /\ streams_sorted (map init_file ex_files) /\
   (* what the model computes: ties at ts 1 and 4 go to the most recently appended file, two files
      interleave, the third is empty; counters 1 zero / 1 negative in file 0 *)
-  map (fun it => (e_uid (fst it), snd it)) (merged ex_files) = [(1000, 1%nat); (0, 0%nat); (6, 0%nat); (8, 0%nat); (1002, 1%nat)] /\
+  map (fun it => (e_uid (fst it), snd it)) (merged ex_files) = [(1000, 1%nat); (0, 0%nat); (6, 0%nat); (7, 0%nat); (8, 0%nat); (1002, 1%nat)] /\
   map (fun s => (f_zero s, f_neg s, f_rank s)) (snd (multi ex_files)) = [(1, 1, 2); (0, 0, 5); (0, 0, -1)].
 Proof.
   split; [reflexivity|]. split; [reflexivity|]. split; [reflexivity|].
@@ -139,6 +141,18 @@ Proof.
     - vm_compute. apply SSorted_nil. }
   split; vm_compute; reflexivity.
 Qed.
+
+(* events without an args dict are in the domain: they are passed on exactly once, carrying the latched rank
+   (and the rank as pid) in a fresh args dict; the rank is latched from the first of them *)
+Example C15_meta_without_args_annotated :
+  let f := mkFile 1 (-1) false
+             [mkEv 0 (Some "M"%string) (Some "process_name"%string) None None (Some 4) None None;
+              mkEv 1 (Some "i"%string) (Some "inst"%string) (Some 2%Q) None (Some 9) None None;
+              xev 2 "X" 3 (Some 1%Q) 9] in
+  file_end (init_file f) = EStop /\
+  map (fun e => (e_uid e, e_pid e, e_args e)) (file_events (init_file f)) =
+    [(0, Some 4, Some (Some 4, None)); (1, Some 4, Some (Some 4, None)); (2, Some 4, Some (Some 4, Some 1))].
+Proof. vm_compute. split; reflexivity. Qed.
 
 (* a malformed pair is an exception of the per-file iterator (so [all_ok] really excludes something) *)
 Example C15_lone_E_raises :
